@@ -23,7 +23,7 @@ Import ListNotations.
 RULE = ("domain systems: every sequence of <= 5 (quick) / <= 6 (thorough) molecules over the species A (one residue), "
         "B (two different residues), C (residues P,Q,P), D (two identical consecutive residues) and the unloaded solvent W, "
         "each with every permutation of every sub-list of the four topologies (65 loading orders, absent species are refused "
-        "and the session goes on); random longer domain systems over random species with disjoint signatures; wild systems "
+        "and the session goes on; quick tier at length 5: 12 full permutations + 6 shorter orders drawn per system); random longer domain systems over random species with disjoint signatures; wild systems "
         "(shared signatures, same name+size with other atom names, truncated instances, topologies that merge residues) for K only. "
         "A case is one (file, loading order); non-trivial = distinct and at least one topology accepted or refused after a scan.")
 
@@ -309,6 +309,84 @@ def oracle_session(spec, built, order, syst, mols, loads, views=True):
     return bad
 
 
+def has_same_key(sp):
+    """the predicate of the known finding `same_key_residues`: the species contains two residues with equal
+    (resname, atom count) but different atom names"""
+    seen = {}
+    for rn, names in sp["residues"]:
+        k = (rn, len(names))
+        if k in seen and seen[k] != tuple(names):
+            return True
+        seen.setdefault(k, tuple(names))
+    return False
+
+
+def oracle_samekey(spec, built, order, syst, mols, loads):
+    """The property on a file that contains species with same-key residues (known finding).  Returns
+    (keyed, other): clauses that are the refusal/misrecognition of an AFFECTED species (reported under the key
+    same_key_residues), and every other failed clause (reported as an ordinary violation)."""
+    keyed, other = [], []
+    affected = set(s for s, sp in enumerate(spec["species"]) if has_same_key(sp))
+    if "raw" not in built:
+        built["raw"] = read_gro_raw(built["gro"])
+    raw = built["raw"]
+    res_start = [0]
+    for rid, rn, names in built["residues"]:
+        res_start.append(res_start[-1] + len(names))
+    present = set(s for s, _, _ in built["truth"] if s is not None)
+    accepted = []
+    for k, code in zip(order, loads):
+        sp = spec["top_species"][k]
+        if sp in present and sp not in accepted:
+            if code != 0:
+                (keyed if sp in affected else other).append(
+                    "topology %s of a species present in the file was refused" % spec["species"][sp]["name"])
+            else:
+                accepted.append(sp)
+        elif code == 0:
+            other.append("topology %s with no matching run was accepted" % spec["tops"][k]["name"])
+    hit = any(sp in affected for sp in accepted)
+    if mols is None:
+        (keyed if hit else other).append("iteration raised an error")
+        return keyed, other
+    names_ok = set(spec["species"][sp]["name"] for sp in accepted)
+    for m in mols:
+        if m.name not in names_ok:
+            other.append("a molecule %s of a species that was not accepted" % m.name)
+    firsts = [m.atoms_ids[0] for m in mols]
+    if firsts != sorted(firsts) or len(set(firsts)) != len(firsts):
+        (keyed if hit else other).append("molecules not in file order")
+    for sp in accepted:
+        spd = spec["species"][sp]
+        dest = keyed if sp in affected else other
+        obs = [m for m in mols if m.name == spd["name"]]
+        exp = [(r0, nr) for s, r0, nr in built["truth"] if s == sp]
+        if len(obs) != len(exp):
+            dest.append("%s: %d molecules, %d instances in the file" % (spd["name"], len(obs), len(exp)))
+            continue
+        tnames = [an for rn, nm in spd["residues"] for an in nm]
+        for mol, (r0, nr) in zip(obs, exp):
+            a0, a1 = res_start[r0], res_start[r0 + nr]
+            if list(mol.atoms_ids) != [raw[k][3] for k in range(a0, a1)]:
+                dest.append("%s: atoms %s, expected the contiguous run %d..%d" % (spd["name"], list(mol.atoms_ids), a0 + 1, a1))
+            elif [at.name for at in mol] != tnames or tnames != [raw[k][2] for k in range(a0, a1)]:
+                dest.append("%s: atom names differ from the topology" % spd["name"])
+            elif not np.array_equal(np.asarray(mol.atoms_positions), np.array([raw[k][4] for k in range(a0, a1)])):
+                dest.append("%s: coordinates differ from the file" % spd["name"])
+    # the views agree with each other whatever was recognised
+    descr = [mol_descr(m) for m in mols]
+    n = len(descr)
+    if len(syst) != n:
+        other.append("len = %d, iteration gives %d" % (len(syst), n))
+    if dict(syst.composition) != dict(Counter(d[0] for d in descr)):
+        other.append("composition %s differs from the iteration" % dict(syst.composition))
+    for i in range(-n, n):
+        ok, m = catch(lambda: syst[i])
+        if not ok or mol_descr(m) != descr[i]:
+            other.append("System[%d] differs from list(System)[%d]" % (i, i))
+    return keyed, other
+
+
 def oracle_slices(obs):
     """slices observed = Python slices of the observed iteration"""
     bad = []
@@ -341,7 +419,7 @@ def run_system(job):
     spec = job["spec"]
     rs = np.random.RandomState(job["seed"])
     built = build_system(spec)
-    out = {"fails": [], "sessions": 0, "hist": Counter(), "keys": []}
+    out = {"fails": [], "fails_keyed": [], "sessions": 0, "hist": Counter(), "keys": []}
     try:
         mtops = [MoleculeTop(p) for p in built["tops"]]
         I = Interner()
@@ -358,13 +436,24 @@ def run_system(job):
                 if c:
                     out["hist"]["refused_class_%d" % c] += 1
             out["keys"].append((tuple(order), tuple(loads), len(obs["iter"]) if obs["iter_ok"] else -1))
-            if job["domain"]:
+            if job.get("samekey"):
+                keyed, other = oracle_samekey(spec, built, order, syst, mols, loads)
+                other += oracle_slices(obs)
+                if keyed:
+                    out["fails_keyed"].append((order, keyed))
+                if other:
+                    out["fails"].append((order, other))
+            elif job["domain"]:
                 bad = oracle_session(spec, built, order, syst, mols, loads, views) + oracle_slices(obs)
                 if bad:
                     out["fails"].append((order, bad))
-            key = coq_obs(obs, I)
-            groups.setdefault(key, []).append((order, loads))
+            if job.get("in_k", True):
+                key = coq_obs(obs, I)
+                groups.setdefault(key, []).append((order, loads))
             del syst
+        if not job.get("in_k", True):
+            out["hist"] = dict(out["hist"])
+            return out
         gtxt = "[" + ";\n    ".join("([%s],%s)" % (";".join("(%s,%s)" % (coq_nats(o), coq_nats(l)) for o, l in ols), key)
                                     for key, ols in groups.items()) + "]"
         out["case"] = "chk_sys %s\n    [%s]\n    %s" % (coq_file(built, I), ";".join(coq_top(t, I) for t in spec["tops"]), gtxt)
@@ -476,6 +565,36 @@ def random_wild_spec(rs):
     return {"species": species, "segments": segs, "tops": tops, "top_species": list(range(len(tops)))}
 
 
+def samekey_spec(variant, segs, sizes=(3, 1)):
+    """species 0 has two residues MON with equal size and different atom names: adjacent (variant 0) or separated
+    by a residue MID (variant 1); species 1 is an ordinary one-residue species; segment 2 = solvent residue"""
+    n, k = sizes
+    mon1 = ["MON", ["a%d" % j for j in range(n)]]
+    mon2 = ["MON", ["d%d" % j for j in range(n)]]
+    mid = ["MID", ["x%d" % j for j in range(k)]]
+    pol = {"name": "POL", "residues": [mon1, mon2] if variant == 0 else [mon1, mid, mon2]}
+    ordinary = {"name": "MA", "residues": [["RA", ["a1", "a2"]]]}
+    species = [pol, ordinary]
+    return {"species": species, "segments": [s if s < 2 else SOLVENT for s in segs],
+            "tops": [species_top(pol), species_top(ordinary)], "top_species": [0, 1]}
+
+
+def samekey_jobs(rs, n):
+    jobs = []
+    for _ in range(n):
+        variant = int(rs.randint(0, 2))
+        mode = int(rs.randint(0, 3))        # 0: only POL; 1: POL + solvent; 2: POL + ordinary species (+ solvent)
+        alphabet = [[0], [0, 2], [0, 1, 2]][mode]
+        segs = [alphabet[int(rs.randint(0, len(alphabet)))] for _ in range(int(rs.randint(1, 6)))]
+        if 0 not in segs:
+            segs[int(rs.randint(0, len(segs)))] = 0
+        spec = samekey_spec(variant, segs, (int(rs.randint(1, 4)), int(rs.randint(1, 3))))
+        orders = [[0], [0, 1], [1, 0]] if 1 in segs else [[0]]
+        jobs.append({"spec": spec, "orders": orders, "domain": False, "samekey": True, "kind": "samekey",
+                     "seed": int(rs.randint(0, 2 ** 31))})
+    return jobs
+
+
 # ------------------------------------------------------------------ corpus (committed witnesses)
 CORPUS = [
     # self-overlapping pattern P,Q,P twice in a row, then adjacent pairs of identical residues
@@ -485,6 +604,26 @@ CORPUS = [
     # a species absent from the file is refused and the rest is still recognised
     {"seq": (1, 1, 4), "orders": [[0, 1], [1, 0], [2, 3, 1]]},
 ]
+
+
+# the recorded known finding (known_findings.txt, key same_key_residues): POL = MON(a,b,c) + MON(d,e,f), two molecules
+CORPUS_SAMEKEY = [
+    {"variant": 0, "segs": [0, 0]},            # refused: OSError 'The molecule can not be initialized'
+    {"variant": 1, "segs": [0, 0]},            # separated by MID: the first molecule is silently not recognised
+    {"variant": 0, "segs": [1, 0, 2, 0, 1]},   # an ordinary species is present and must still be recognised
+]
+
+
+def report(ctx, job, r, counters):
+    """violations of one run_system result; clauses caused by the known finding go under its key"""
+    for order, bad in r["fails_keyed"]:
+        counters["known"] = counters.get("known", 0) + 1
+        ctx.violation("C11 (same (resname, size), other atom names inside a species): " + "; ".join(bad[:4]),
+                      job_replay(job, order), key="same_key_residues")
+    for order, bad in r["fails"]:
+        counters["fails"] = counters.get("fails", 0) + 1
+        if counters["fails"] <= MAX_REPORTS:     # one replay file per failing input is enough; the count is in the evidence
+            ctx.violation("C11: " + "; ".join(bad[:4]), job_replay(job, order), key="recognition")
 
 
 def _pool():
@@ -501,6 +640,14 @@ def corpus(ctx):
         for order, bad in r["fails"]:
             ctx.violation("C11 on a committed witness: " + "; ".join(bad[:4]),
                           {"kind": "fixed", "seq": list(c["seq"]), "orders": [order], "domain": True}, key="recognition")
+    cnt = {}
+    for c in CORPUS_SAMEKEY:
+        job = {"spec": samekey_spec(c["variant"], c["segs"]), "orders": [[0], [0, 1], [1, 0]], "domain": False,
+               "samekey": True, "kind": "samekey", "seed": 1}
+        r = run_system(job)
+        S["corpus"] += r["sessions"]
+        report(ctx, job, r, cnt)
+    S["corpus_known_finding_hits"] = cnt.get("known", 0)
 
 
 def make_jobs(ctx):
@@ -512,16 +659,20 @@ def make_jobs(ctx):
     for n in range(1, maxlen + 1):
         for seq in itertools.product(range(5), repeat=n):
             # System[i] for every i and slices: on 3 full permutations and 3 other orders per system
-            vo = [int(x) for x in rs.randint(41, 65, size=3)] + [int(x) for x in rs.randint(0, 41, size=3)]
+            vo = [int(x) for x in rs.randint(41, 65, size=2)] + [int(rs.randint(0, 41))]
             ords = orders
+            in_k = True
             if ctx.quick and n == maxlen:
-                # quick tier, longest sequences: the 24 full permutations and 12 of the 41 shorter orders
-                # (the thorough tier runs all 65 on every sequence)
-                keep = sorted(set(int(x) for x in rs.choice(41, size=12, replace=False)))
-                ords = [orders[k] for k in keep] + orders[41:]
-                vo = [int(x) for x in rs.randint(12, 36, size=3)] + [int(x) for x in rs.randint(0, 12, size=3)]
+                # quick tier, longest sequences: 12 of the 24 full permutations and 6 of the 41 shorter orders, drawn
+                # per system (every order is covered over the 3125 systems; sequences of <= 4 molecules and the
+                # thorough tier run all 65 orders on every sequence); System[i]/slices on one order of each kind
+                keep = sorted(set(int(x) for x in rs.choice(41, size=6, replace=False)))
+                full = sorted(set(int(x) for x in 41 + rs.choice(24, size=12, replace=False)))
+                ords = [orders[k] for k in keep + full]
+                vo = [int(rs.randint(6, 18)), int(rs.randint(0, 6))]
+                in_k = bool(rs.randint(0, 2))     # S on every sequence, K (text for coqc) on a random half
             jobs.append({"spec": fixed_spec(seq), "orders": ords, "domain": True, "kind": "fixed", "seq": list(seq),
-                         "seed": int(rs.randint(0, 2 ** 31)), "full_slices": False, "view_orders": vo})
+                         "seed": int(rs.randint(0, 2 ** 31)), "full_slices": False, "view_orders": vo, "in_k": in_k})
     # exhaustive slices on a few systems
     for _ in range(ctx.n(6, 40)):
         seq = [int(x) for x in rs.randint(0, 5, size=int(rs.randint(1, 5)))]
@@ -533,18 +684,23 @@ def make_jobs(ctx):
         ords = [list(rs.permutation(k)) for _ in range(3)] + [list(rs.permutation(k))[:int(rs.randint(0, k + 1))]]
         ords = [[int(x) for x in o] for o in ords]
         jobs.append({"spec": spec, "orders": ords, "domain": True, "kind": "random", "seed": int(rs.randint(0, 2 ** 31)),
-                     "ctor": ords[0]})
+                     "ctor": ords[0], "view_orders": [0, 3]})
     for _ in range(ctx.n(600, 6000)):
         spec = random_wild_spec(rs)
         k = len(spec["tops"])
         ords = [[int(x) for x in rs.permutation(k)] for _ in range(2)] + [[int(x) for x in rs.randint(0, k, size=int(rs.randint(1, 5)))]]
         jobs.append({"spec": spec, "orders": ords, "domain": False, "kind": "wild", "seed": int(rs.randint(0, 2 ** 31)),
                      "ctor": ords[0]})
+    # the known finding same_key_residues: out of the domain streams; K compares them like any wild case,
+    # S reports the refusal/misrecognition under the key and anything else as an ordinary violation
+    jobs += samekey_jobs(rs, ctx.n(40, 400))
     return jobs
 
 
 def job_replay(job, order=None):
     r = {"kind": job["kind"], "seed": job["seed"], "domain": job["domain"]}
+    if job.get("samekey"):
+        r["samekey"] = True
     if job["kind"] == "fixed":
         r["seq"] = job["seq"]
     else:
@@ -554,16 +710,20 @@ def job_replay(job, order=None):
 
 
 def correspondence(ctx):
+    import time
+    t0 = time.time()
     jobs = make_jobs(ctx)
     with _pool() as pool:
         results = pool.map(run_system, jobs, chunksize=8)
+    ctx.cov["K"]["wall_impl_s"] = round(time.time() - t0, 1)
     cases, meta = [], []
     hist = Counter()
     sessions = 0
-    nfail = 0
+    cnt = {}
     for job, r in zip(jobs, results):
-        cases.append(r["case"])
-        meta.append(job_replay(job))
+        if "case" in r:
+            cases.append(r["case"])
+            meta.append(job_replay(job))
         if "ctor_case" in r:
             cases.append(r["ctor_case"])
             meta.append(dict(job_replay(job, job["ctor"]), ctor=True))
@@ -571,13 +731,13 @@ def correspondence(ctx):
         hist["sessions_" + job["kind"]] += r["sessions"]
         for k, v in r["hist"].items():
             hist[k] += v
-        sessions += r["sessions"]
+        if "case" in r:
+            sessions += r["sessions"]
         for key in r["keys"]:
             ctx.count((job.get("seq"), job["seed"], key), nontrivial=len(key[0]) > 0)
-        for order, bad in r["fails"]:
-            nfail += 1
-            if nfail <= MAX_REPORTS:      # one replay file per failing input is enough; the count is in the evidence
-                ctx.violation("C11: " + "; ".join(bad[:4]), job_replay(job, order), key="recognition")
+        report(ctx, job, r, cnt)
+    nfail = cnt.get("fails", 0)
+    ctx.cov["S"]["known_finding_sessions"] = cnt.get("known", 0)
     for m in (meta[7], meta[len(meta) // 2], meta[-1]):
         smp = {k: v for k, v in m.items() if k not in ("spec", "orders")}
         smp["orders"] = m["orders"][:3]
@@ -592,7 +752,8 @@ def correspondence(ctx):
     K["sessions"] = sessions
     K["input_distribution"] = dict(hist)
     K["log"] = log
-    ctx.cov["S"]["sessions_on_K_cases"] = sum(r["sessions"] for job, r in zip(jobs, results) if job["domain"])
+    ctx.cov["S"]["sessions_on_generated_files"] = sum(r["sessions"] for job, r in zip(jobs, results)
+                                                     if job["domain"] or job.get("samekey"))
     ctx.cov["S"]["failures"] = nfail
     if codes is None:
         K["error"] = log
@@ -602,8 +763,10 @@ def correspondence(ctx):
     dis = [dict(meta[i], code=c) for i, c in sorted(codes.items())]
     # every generated domain file satisfies the hypothesis of C11_exact (reflective checker evaluated in Coq)
     dcases = [(job, r["domain_case"]) for job, r in zip(jobs, results) if "domain_case" in r]
+    K["domain_log"] = None
     dcodes, dlog = lib.run_coq_cases(ctx.cid, "KD", HEADER_D, [c for _, c in dcases], shard=ctx.n(300, 1500), timeout=1500)
     K["domain_hypothesis_cases"] = len(dcases)
+    K["domain_log"] = dlog
     if dcodes is None:
         K["error"] = dlog
         return dis + [{"error": "coqc failed on the domain-hypothesis cases", "log": dlog[-1500:]}]
@@ -623,6 +786,10 @@ def spec_of(r):
 
 
 def replay_obj(r):
+    if r.get("samekey"):
+        res = run_system({"spec": r["spec"], "orders": r["orders"], "domain": False, "samekey": True,
+                          "seed": r.get("seed", 0)})
+        return [c for _, bad in res["fails_keyed"] + res["fails"] for c in bad]
     res = run_system({"spec": spec_of(r), "orders": r["orders"], "domain": True, "seed": r.get("seed", 0)})
     return [c for _, bad in res["fails"] for c in bad]
 
@@ -637,6 +804,7 @@ def oracle(ctx, scale):
         k = len(spec["tops"])
         ords = [[int(x) for x in rs.permutation(k)] for _ in range(2)]
         jobs.append({"spec": spec, "orders": ords, "domain": True, "kind": "random", "seed": int(rs.randint(0, 2 ** 31))})
+    jobs += samekey_jobs(rs, ctx.n(20, 200) * scale)
     if scale > 1:
         for n in range(1, 7):
             for seq in itertools.product(range(5), repeat=n):
@@ -645,21 +813,19 @@ def oracle(ctx, scale):
                                  "seq": list(seq), "seed": 0})
     with _pool() as pool:
         results = pool.map(run_system, jobs, chunksize=4)
-    fails = 0
+    cnt = {}
     for job, r in zip(jobs, results):
         for key in r["keys"]:
             ctx.count(("S", job["seed"], key))
-        for order, bad in r["fails"]:
-            fails += 1
-            if fails <= MAX_REPORTS:
-                ctx.violation("C11: " + "; ".join(bad[:4]), job_replay(job, order), key="recognition")
+        report(ctx, job, r, cnt)
+    fails = cnt.get("fails", 0)
     S["sessions_x%d" % scale] = sum(r["sessions"] for r in results)
     S["failures"] = S.get("failures", 0) + fails
 
 
 def replay(ctx, obj):
     r = obj["replay"]
-    if "kind" not in r or r.get("kind") not in ("fixed", "random", "wild"):
+    if "kind" not in r or r.get("kind") not in ("fixed", "random", "wild", "samekey"):
         print("replay names a proof/correspondence, not an input:", json.dumps(r)[:400])
         return False
     bad = replay_obj(r)
@@ -672,8 +838,9 @@ def finish(ctx):
         "strings are interned as numbers by the harness (equal strings <-> equal numbers); residue names have <= 5 characters",
         "the coordinate file is modelled as the list of residues SystemGro cuts (that cut is property C12); atoms are numbered 1..N",
         "more_itertools.islice_extended on a finite generator is Python list slicing (checked against list slicing on every observed slice)",
-        "a species whose residues share name and atom count but differ in atom names is outside the theorems' hypotheses "
-        "(the (resname, size) key is then ambiguous; see docs/design_notes/C11.md)",
+        "domain hypothesis: equal (resname, size) key implies equal residue. A species with two residues of equal name and atom "
+        "count but other atom names is refused or partly unrecognised: KNOWN finding same_key_residues (known_findings.txt), "
+        "reproduced by the model, reported by S under that key only for that refusal/misrecognition",
     ]
     return ctx.finish(level="proof", rule=RULE,
                       trusted=["numpy comparison/broadcast rules of `window == pattern` written out by hand (window_all)",
